@@ -157,12 +157,15 @@ def table_telegram_received(chk: Check, repo: Repo) -> None:
             am.isinstance_fn = class_isinstance(repo)
             paths = Explorer(cfg, repo, am.step).run(cfg.entry, [], env)
             traces = {(tuple(p.env.get("trace", ())), p.end_kind) for p in paths}
+            # the property's matrix: group data -> queue; management only for a broadcast or a frame addressed to this
+            # interface; everything else (foreign individual destination, group-addressed frames that are neither
+            # T_Data_Group nor T_Data_Broadcast, e.g. T_Data_Tag_Group) reaches no consumer
             if t == "TDataGroup":
                 want = {(("PUT",), "exit")}
-            elif dst.cls == "IndividualAddress" and dst.tag == "other":
-                want = {((), "exit")}
+            elif dst.cls == "IndividualAddress":
+                want = {(("MGMT",), "exit")} if dst.tag == "own" else {((), "exit")}
             else:
-                want = {(("MGMT",), "exit")}
+                want = {(("MGMT",), "exit")} if t == "TDataBroadcast" else {((), "exit")}
             ok = traces == want
             chk.ob("consumer-cell", fi.site(), ok, f"tpci={t} destination={dst!r}: code {sorted(traces)}; reference {sorted(want)}", key=f"recv|{t}|{dst!r}" + ("" if ok else f"|{sorted(traces)}"))
     chk.count("telegram_received_cells", cells)
